@@ -18,6 +18,7 @@ ROOTS = {
     "gmm.ll": ("gmm:log_likelihood", {"data": "U eqv [N,D]", "machine": "obj:GMMMachine"}, True, (False, True), None),
     "gmm.ll1": ("gmm:log_likelihood", {"data": "U eqv [D]", "machine": "obj:GMMMachine"}, True, (False,), None),
     "gmm.e_step": ("gmm:e_step", {"data": "U [N,D]", "machine": "obj:GMMMachine"}, True, (False, True), None),
+    "gmm.e_step1": ("gmm:e_step", {"data": "U [D]", "machine": "obj:GMMMachine"}, True, (False,), None),
     "gmm.m_step": ("gmm:m_step", {"statistics": "list:B:obj:GMMStats", "machine": "obj:GMMMachine"}, True, (None,), "tuple:obj:GMMMachine|LOG U-d []"),
     "gmm.ml": ("gmm:ml_gmm_m_step", dict(SW, machine="obj:GMMMachine", statistics="obj:GMMStats"), True, (None,), None),
     "gmm.map.reynolds": ("gmm:map_gmm_m_step", dict(SW, machine="obj:GMMMachine", statistics="obj:GMMStats", reynolds_adaptation="true", relevance_factor="*", alpha="*"), True, (None,), None),
@@ -58,6 +59,8 @@ ROOTS = {
     "fa.fn_z_i": ("factor_analysis:FactorAnalysisBase._compute_fn_z_i", {"X_i": ST, "latent_x_i": "1 [R,K]", "latent_y_i": "1 [R]", "n_acc_i": "S [C]", "f_acc_i": "U S [C,D]"}, True, (None,), "U S [F]"),
     "fa.fn_y_i": ("factor_analysis:FactorAnalysisBase._compute_fn_y_i", {"X_i": ST, "latent_x_i": "1 [R,K]", "latent_z_i": "1 [F]", "n_acc_i": "S [C]", "f_acc_i": "U S [C,D]"}, True, (None,), "U S [F]"),
     "fa.latent_x_i": ("factor_analysis:FactorAnalysisBase._compute_latent_x_per_class", {"X_i": ST, "UProd": "1 [C,R,R]", "UTinvSigma": "U-1 [R,F]", "latent_y_i": "1 [R]", "latent_z_i": "1 [F]"}, False, (None,), "1 [R,K]"),
+    "fa.update_z": ("factor_analysis:FactorAnalysisBase.update_z", {"X": ST, "y": "list:K:*", "latent_x": "list:K:1 [R,?]", "latent_y": "list:K:1 [R]", "latent_z": "list:K:1 [F]", "n_acc": "1 [K,C]", "f_acc": "U [K,C,D]"}, False, (None,), "list:K:1 [F]"),
+    "fa.update_y": ("factor_analysis:FactorAnalysisBase.update_y", {"X": ST, "y": "list:K:*", "VProd": "1 [C,R,R]", "latent_x": "list:K:1 [R,?]", "latent_y": "list:K:1 [R]", "latent_z": "list:K:1 [F]", "n_acc": "1 [K,C]", "f_acc": "U [K,C,D]"}, False, (None,), None),
     "fa.create_UVD": ("factor_analysis:FactorAnalysisBase.create_UVD", {}, False, (None,), None),
     # ---- linear transforms -----------------------------------------------------------------------------------
     "wccn.fit": ("wccn:WCCN.fit", {"X": "U eqv [N,D]", "y": "list:N:*"}, True, (False, True), None),
